@@ -156,6 +156,11 @@ def py_fn(t):
     if k == 'noneif':
         p = py_fn(t[1])
         return lambda x: None if p(x) else x
+    if k == 'nanif':         # Python only: NaN (a value that is != itself) where the condition holds, else the item
+        import math
+        pn = py_fn(t[1])
+        shared = t[2] if len(t) > 2 else 1
+        return (lambda x: (math.nan if shared else float('nan')) if pn(x) else x)
     if k == 'tostr':         # Python only: a string built at run time (equal strings are not identical objects)
         return lambda x: 's%d' % x
     if k == 'torange':       # Python only (no Coq model): an iterable that is neither list nor tuple
